@@ -22,6 +22,16 @@ pub fn realise(case: &Value) -> Vec<(String, Value, Value, DecodedMap)> {
                 v.push((how, json!([m.clone()]), json!([]), DecodedMap::Regular(sm)));
             }
         }
+        if case.get("sources").is_none() && case.get("how").is_none() {
+            // the same token list over string tables whose entries are all EQUAL strings: tokens that
+            // differ only in which duplicate entry they reference are still different tokens
+            let mut m2 = m.clone();
+            m2["sources"] = Value::Array(m["sources"].as_array().unwrap().iter().map(|_| cps("dup.js")).collect());
+            m2["names"] = Value::Array(m["names"].as_array().unwrap().iter().map(|_| json!("same")).collect());
+            if let Some(sm) = build(&m2, "new") {
+                v.push(("new".to_string(), json!([m2]), json!([]), DecodedMap::Regular(sm)));
+            }
+        }
     }
     v
 }
